@@ -7,6 +7,7 @@ import (
 	"errors"
 	"fmt"
 	"io"
+	"math"
 	"strings"
 	"time"
 
@@ -296,6 +297,13 @@ func (sh *SessionHandler) handleRPCRenew(s *rhp3.Stream, log *zap.Logger) (contr
 	if renewal.WindowStart >= cs.Network.HardforkV2.RequireHeight {
 		s.WriteResponseErr(ErrAfterV2Hardfork)
 		return contracts.Usage{}, ErrAfterV2Hardfork
+	}
+	// heights are stored as signed 64-bit integers: a larger proof window end
+	// passes validation but cannot be recorded once the renewal is broadcast
+	if renewal.WindowEnd > math.MaxInt64 {
+		err := errors.New("failed to validate renewal: proof window end is too large")
+		s.WriteResponseErr(err)
+		return contracts.Usage{}, err
 	}
 
 	// lock the existing contract
